@@ -284,3 +284,11 @@ Proof.
       * exists d. auto.
       * exists (mf_data f :: d). rewrite D1, <- app_assoc. split; auto. constructor; auto. rewrite Hd. auto.
 Qed.
+
+(* ---- totality of the receive step on everything the decoder can produce *)
+Lemma reencode_ok_wire : forall f, len (mf_data f) <= max_wire_payload -> reencode_ok f = true.
+Proof. intros f H. unfold reencode_ok, max_wire_payload in *. cbv zeta.
+  rewrite N.mod_small by lia. apply andb_true_iff. split; [apply N.leb_le|apply N.leb_le]; lia. Qed.
+
+Theorem demux_total : forall m f, len (mf_data f) <= max_wire_payload -> demux_res m f = Ok (demux m f).
+Proof. intros m f H. unfold demux_res. rewrite (reencode_ok_wire f H). rewrite andb_false_r. reflexivity. Qed.
